@@ -11,7 +11,7 @@ namespace fcppt
 namespace options
 {
 template <typename Label>
-class flag;
+class unit;
 
 }
 }
